@@ -302,6 +302,9 @@ func genQueues(t *rapid.T, pf Profile, w *World) {
 		top := mk("")
 		topName := top.Name
 		kids := between(t, 1, 3, "kids")
+		if w.Config.FullHierarchy && i > 0 && chance(t, 3, "topLevelLeaf") {
+			kids = 0 // a one-level queue: top-level and leaf at once
+		}
 		for k := 0; k < kids && total < pf.MaxQueues+nTop; k++ {
 			mid := mk(topName)
 			midName := mid.Name
@@ -324,7 +327,7 @@ func (w *World) LeafQueues() []string {
 	}
 	var out []string
 	for _, q := range w.Queues {
-		if !hasKids[q.Name] && q.Parent != "" {
+		if !hasKids[q.Name] && (q.Parent != "" || w.Config.FullHierarchy) {
 			out = append(out, q.Name)
 		}
 	}
